@@ -25,7 +25,7 @@ type CrashCase struct {
 	Knobs   kit.Knobs `json:"knobs"`
 	Mode    string    `json:"mode"` // enum | multi
 	Ops     []kit.Op  `json:"ops"`
-	Crashes []CrashPt `json:"crashes,omitempty"` // multi: one per segment
+	Crashes []CrashPt `json:"crashes,omitempty"`  // multi: one per segment
 	PSeed   uint64    `json:"pseed"`              // POWER-DATA prefix choices
 	TxnBias bool      `json:"txn_bias,omitempty"` // C03: programme is mostly transactions
 }
